@@ -360,10 +360,7 @@ func c18Run(o c18Opts) vs.Verdict {
 		c.cs.Close()
 	}
 	vs.WaitIdle()
-	s.mu.Lock()
-	left := len(s.toolChangeSubscriptions) + len(s.sessions)
-	s.mu.Unlock()
-	if left != 0 {
+	if left, ok := privToolSubscriptionsAndSessions(s); ok && left != 0 {
 		f.failf("subscriptions-of-closed-sessions-kept", "after all sessions closed the server still holds %d sessions/subscriptions", left)
 	}
 	vs.Quiet(false)
